@@ -5,8 +5,12 @@ Require Import SZV.Model.Threads.
 Local Open Scope Z_scope.
 
 Fixpoint wrote (b:block) : list nat :=
-  match b with [] => [] | Wr g _ :: b' => g :: wrote b' | Rd _ :: b' => wrote b' end.
+  match b with [] => [] | Wr g _ :: b' => g :: wrote b' | Rd _ :: b' => wrote b' | Cp _ _ :: b' => wrote b' end.
 Definition agrees (vg:nat -> Z) (b:block) : Prop := forall g v, In (Wr g v) b -> v = vg g.
+(* tracked globals: the ones calls read.  Copies (a setting saved into a local and put back on return) may only land in
+   untracked globals, reads only look at tracked ones *)
+Definition cp_untracked (tr:nat -> bool) (b:block) : Prop := forall sg dg, In (Cp sg dg) b -> tr dg = false.
+Definition rd_tracked (tr:nat -> bool) (b:block) : Prop := forall g, In (Rd g) b -> tr g = true.
 
 Lemma agrees_cons vg a b : agrees vg (a :: b) -> agrees vg b.
 Proof. intros H g v Hi. apply H. right. exact Hi. Qed.
@@ -14,34 +18,50 @@ Lemma agrees_app_l vg a b : agrees vg (a ++ b) -> agrees vg a.
 Proof. intros H g v Hi. apply H, in_or_app. left. exact Hi. Qed.
 Lemma agrees_app_r vg a b : agrees vg (a ++ b) -> agrees vg b.
 Proof. intros H g v Hi. apply H, in_or_app. right. exact Hi. Qed.
+Lemma cpu_cons tr a b : cp_untracked tr (a :: b) -> cp_untracked tr b.
+Proof. intros H sg dg Hi. eapply H. right. exact Hi. Qed.
+Lemma cpu_app_l tr a b : cp_untracked tr (a ++ b) -> cp_untracked tr a.
+Proof. intros H sg dg Hi. eapply H, in_or_app. left. exact Hi. Qed.
+Lemma cpu_app_r tr a b : cp_untracked tr (a ++ b) -> cp_untracked tr b.
+Proof. intros H sg dg Hi. eapply H, in_or_app. right. exact Hi. Qed.
+Lemma rdt_cons tr a b : rd_tracked tr (a :: b) -> rd_tracked tr b.
+Proof. intros H g Hi. apply H. right. exact Hi. Qed.
+Lemma rdt_app_l tr a b : rd_tracked tr (a ++ b) -> rd_tracked tr a.
+Proof. intros H g Hi. apply H, in_or_app. left. exact Hi. Qed.
+Lemma rdt_app_r tr a b : rd_tracked tr (a ++ b) -> rd_tracked tr b.
+Proof. intros H g Hi. apply H, in_or_app. right. exact Hi. Qed.
 
 Lemma wrote_app a b : wrote (a ++ b) = wrote a ++ wrote b.
-Proof. induction a as [|[g v|g] a IH]; cbn; [reflexivity|rewrite IH; reflexivity|exact IH]. Qed.
+Proof. induction a as [|[g v|g|sg dg] a IH]; cbn; [reflexivity|rewrite IH; reflexivity|exact IH|exact IH]. Qed.
 
 Lemma run_block_app b1 : forall m b2,
   run_block m (b1 ++ b2) = let '(m1, o1) := run_block m b1 in let '(m2, o2) := run_block m1 b2 in (m2, o1 ++ o2).
 Proof.
-  induction b1 as [|[g v|g] b1 IH]; intros m b2; cbn [app run_block].
+  induction b1 as [|[g v|g|sg dg] b1 IH]; intros m b2; cbn [app run_block].
   - destruct (run_block m b2); reflexivity.
   - apply IH.
   - rewrite IH. destruct (run_block m b1) as [m1 o1]. destruct (run_block m1 b2) as [m2 o2]. reflexivity.
+  - apply IH.
 Qed.
 
-Lemma run_block_preserve vg b : forall m g, agrees vg b -> m g = vg g -> fst (run_block m b) g = vg g.
+Lemma run_block_preserve tr vg b : forall m g, agrees vg b -> cp_untracked tr b -> tr g = true -> m g = vg g -> fst (run_block m b) g = vg g.
 Proof.
-  induction b as [|[g' v|g'] b IH]; intros m g Ha Hm; cbn [run_block]; [exact Hm| |].
-  - apply IH; [eapply agrees_cons; eauto|]. unfold upd. destruct (Nat.eqb g g') eqn:E; [|exact Hm].
+  induction b as [|[g' v|g'|sg dg] b IH]; intros m g Ha Hc Tg Hm; cbn [run_block]; [exact Hm| | |].
+  - apply IH; [eapply agrees_cons; eauto|eapply cpu_cons; eauto|exact Tg|]. unfold upd. destruct (Nat.eqb g g') eqn:E; [|exact Hm].
     apply Nat.eqb_eq in E. subst. apply Ha. left. reflexivity.
-  - specialize (IH m g (agrees_cons _ _ _ Ha) Hm). destruct (run_block m b). exact IH.
+  - specialize (IH m g (agrees_cons _ _ _ Ha) (cpu_cons _ _ _ Hc) Tg Hm). destruct (run_block m b). exact IH.
+  - apply IH; [eapply agrees_cons; eauto|eapply cpu_cons; eauto|exact Tg|]. unfold upd. destruct (Nat.eqb g dg) eqn:E; [|exact Hm].
+    apply Nat.eqb_eq in E. subst. rewrite (Hc sg dg (or_introl eq_refl)) in Tg. discriminate Tg.
 Qed.
 
-Lemma run_block_written vg b : forall m g, agrees vg b -> In g (wrote b) -> fst (run_block m b) g = vg g.
+Lemma run_block_written tr vg b : forall m g, agrees vg b -> cp_untracked tr b -> tr g = true -> In g (wrote b) -> fst (run_block m b) g = vg g.
 Proof.
-  induction b as [|[g' v|g'] b IH]; intros m g Ha Hi; cbn [run_block wrote] in *; [contradiction| |].
+  induction b as [|[g' v|g'|sg dg] b IH]; intros m g Ha Hc Tg Hi; cbn [run_block wrote] in *; [contradiction| | |].
   - destruct Hi as [E|Hi].
-    + subst. apply run_block_preserve; [eapply agrees_cons; eauto|]. unfold upd. rewrite Nat.eqb_refl. apply Ha. left. reflexivity.
-    + apply IH; [eapply agrees_cons; eauto|exact Hi].
-  - specialize (IH m g (agrees_cons _ _ _ Ha) Hi). destruct (run_block m b). exact IH.
+    + subst. apply (run_block_preserve tr); [eapply agrees_cons; eauto|eapply cpu_cons; eauto|exact Tg|]. unfold upd. rewrite Nat.eqb_refl. apply Ha. left. reflexivity.
+    + apply IH; [eapply agrees_cons; eauto|eapply cpu_cons; eauto|exact Tg|exact Hi].
+  - specialize (IH m g (agrees_cons _ _ _ Ha) (cpu_cons _ _ _ Hc) Tg Hi). destruct (run_block m b). exact IH.
+  - apply IH; [eapply agrees_cons; eauto|eapply cpu_cons; eauto|exact Tg|exact Hi].
 Qed.
 
 Lemma existsb_in g w : existsb (Nat.eqb g) w = true <-> In g w.
@@ -53,15 +73,16 @@ Qed.
 
 Lemma own_before_mono b : forall w w', (forall g, In g w -> In g w') -> own_before w b = true -> own_before w' b = true.
 Proof.
-  induction b as [|[g v|g] b IH]; intros w w' Hs H; cbn [own_before] in *; [reflexivity| |].
+  induction b as [|[g v|g|sg dg] b IH]; intros w w' Hs H; cbn [own_before] in *; [reflexivity| | |].
   - eapply IH; [|exact H]. intros x [E|Hx]; [left; exact E|right; apply Hs, Hx].
   - apply andb_true_iff in H as [H1 H2]. apply andb_true_iff. split; [|eapply IH; eauto].
     apply existsb_in. apply Hs. apply existsb_in. exact H1.
+  - eapply IH; eauto.
 Qed.
 
 Lemma own_before_app a : forall w b, own_before w (a ++ b) = true -> own_before w a = true /\ own_before (wrote a ++ w) b = true.
 Proof.
-  induction a as [|[g v|g] a IH]; intros w b H; cbn [app own_before wrote] in *.
+  induction a as [|[g v|g|sg dg] a IH]; intros w b H; cbn [app own_before wrote] in *.
   - split; [reflexivity|exact H].
   - destruct (IH _ _ H) as [H1 H2]. split; [exact H1|].
     eapply own_before_mono; [|exact H2]. intros x Hx. apply in_app_or in Hx as [Hx|[E|Hx]].
@@ -70,46 +91,58 @@ Proof.
     + right. apply in_or_app. right. exact Hx.
   - apply andb_true_iff in H as [H0 H]. destruct (IH _ _ H) as [H1 H2]. split; [|exact H2].
     apply andb_true_iff. split; assumption.
+  - apply IH, H.
 Qed.
 
-(* a block that reads only what its thread wrote before reads the same values in any two memories that
-   hold the agreed values of those globals *)
-Lemma obs_agree vg b : forall w m1 m2, own_before w b = true -> agrees vg b ->
-  (forall g, In g w -> m1 g = vg g) -> (forall g, In g w -> m2 g = vg g) ->
+(* a block that reads only tracked globals its thread wrote before reads the same values in any two memories that
+   hold the agreed values of those globals; copies touch untracked globals only *)
+Lemma obs_agree tr vg b : forall w m1 m2, own_before w b = true -> agrees vg b -> cp_untracked tr b -> rd_tracked tr b ->
+  (forall g, In g w -> tr g = true -> m1 g = vg g) -> (forall g, In g w -> tr g = true -> m2 g = vg g) ->
   snd (run_block m1 b) = snd (run_block m2 b).
 Proof.
-  induction b as [|[g v|g] b IH]; intros w m1 m2 Ho Ha H1 H2; cbn [run_block own_before] in *; [reflexivity| |].
-  - eapply IH; [exact Ho|eapply agrees_cons; eauto| |]; intros x [E|Hx]; unfold upd.
+  induction b as [|[g v|g|sg dg] b IH]; intros w m1 m2 Ho Ha Hc Hr H1 H2; cbn [run_block own_before] in *; [reflexivity| | |].
+  - eapply IH; [exact Ho|eapply agrees_cons; eauto|eapply cpu_cons; eauto|eapply rdt_cons; eauto| |]; intros x [E|Hx] Tx; unfold upd.
     + subst. rewrite Nat.eqb_refl. apply Ha. left. reflexivity.
-    + destruct (Nat.eqb x g) eqn:E; [apply Nat.eqb_eq in E; subst; apply Ha; left; reflexivity|apply H1, Hx].
+    + destruct (Nat.eqb x g) eqn:E; [apply Nat.eqb_eq in E; subst; apply Ha; left; reflexivity|apply H1; assumption].
     + subst. rewrite Nat.eqb_refl. apply Ha. left. reflexivity.
-    + destruct (Nat.eqb x g) eqn:E; [apply Nat.eqb_eq in E; subst; apply Ha; left; reflexivity|apply H2, Hx].
+    + destruct (Nat.eqb x g) eqn:E; [apply Nat.eqb_eq in E; subst; apply Ha; left; reflexivity|apply H2; assumption].
   - apply andb_true_iff in Ho as [Hg Ho]. apply existsb_in in Hg.
-    specialize (IH w m1 m2 Ho (agrees_cons _ _ _ Ha) H1 H2).
+    pose proof (Hr g (or_introl eq_refl)) as Tg.
+    specialize (IH w m1 m2 Ho (agrees_cons _ _ _ Ha) (cpu_cons _ _ _ Hc) (rdt_cons _ _ _ Hr) H1 H2).
     destruct (run_block m1 b) as [m1' o1]. destruct (run_block m2 b) as [m2' o2]. cbn [snd] in *.
-    rewrite IH, (H1 _ Hg), (H2 _ Hg). reflexivity.
+    rewrite IH, (H1 _ Hg Tg), (H2 _ Hg Tg). reflexivity.
+  - pose proof (Hc sg dg (or_introl eq_refl)) as Td.
+    eapply IH; [exact Ho|eapply agrees_cons; eauto|eapply cpu_cons; eauto|eapply rdt_cons; eauto| |]; intros x Hx Tx; unfold upd;
+      (destruct (Nat.eqb x dg) eqn:E; [apply Nat.eqb_eq in E; subst; rewrite Td in Tx; discriminate Tx|]); [apply H1|apply H2]; assumption.
 Qed.
 
 Section Agree.
   Variable P : nat -> prog.
   Variable vg : nat -> Z.
   Variable m0 : nat -> Z.
+  Variable tr : nat -> bool.
   (* every thread that writes a global writes the same value (same element type, bound mode, bound ... ) *)
   Hypothesis HA : forall t, agrees vg (concat (P t)).
   (* and reads a global only after having written it *)
   Hypothesis HO : forall t, own_before [] (concat (P t)) = true.
+  (* reads look at tracked globals only; saved-and-restored settings (copies) land in untracked ones *)
+  Hypothesis HR : forall t, rd_tracked tr (concat (P t)).
+  Hypothesis HC : forall t, cp_untracked tr (concat (P t)).
 
   Definition Inv (s:st) : Prop :=
     forall t, exists dn, P t = dn ++ rem s t /\ obs s t = snd (run_block m0 (concat dn)) /\
-                         (forall g, In g (wrote (concat dn)) -> mem s g = vg g).
+                         (forall g, In g (wrote (concat dn)) -> tr g = true -> mem s g = vg g).
 
   Lemma inv_init : Inv (init_st m0 P).
   Proof. intro t. exists []. cbn. split; [reflexivity|]. split; [reflexivity|]. intros g []. Qed.
 
-  Lemma block_agrees u dn b bs : P u = dn ++ b :: bs -> agrees vg b.
+  Lemma block_agrees u dn b bs : P u = dn ++ b :: bs -> agrees vg b /\ cp_untracked tr b /\ rd_tracked tr b.
   Proof.
-    intro E. pose proof (HA u) as H. rewrite E, concat_app in H. cbn [concat] in H.
-    apply agrees_app_r in H. apply agrees_app_l in H. exact H.
+    intro E. pose proof (HA u) as H. pose proof (HC u) as H2. pose proof (HR u) as H3.
+    rewrite E, concat_app in H, H2, H3. cbn [concat] in H, H2, H3.
+    apply agrees_app_r in H. apply agrees_app_l in H.
+    apply cpu_app_r in H2. apply cpu_app_l in H2.
+    apply rdt_app_r in H3. apply rdt_app_l in H3. repeat split; assumption.
   Qed.
 
   Lemma inv_step u s : Inv s -> Inv (step_thread u s).
@@ -117,7 +150,7 @@ Section Agree.
     intros I. unfold step_thread. destruct (rem s u) as [|b bs] eqn:R; [exact I|].
     destruct (run_block (mem s) b) as [m' o] eqn:RB.
     destruct (I u) as [dnu [Eu [Ou Mu]]]. rewrite R in Eu.
-    pose proof (block_agrees u dnu b bs Eu) as Ab.
+    destruct (block_agrees u dnu b bs Eu) as [Ab [Cb Rb]].
     intro t. cbn [mem rem obs]. destruct (Nat.eqb t u) eqn:Etu.
     - apply Nat.eqb_eq in Etu. subst t. exists (dnu ++ [b]).
       split; [rewrite <- app_assoc; exact Eu|]. rewrite concat_app. cbn [concat]. rewrite app_nil_r.
@@ -127,19 +160,21 @@ Section Agree.
         assert (Hob : own_before (wrote (concat dnu) ++ []) b = true).
         { pose proof (HO u) as H. rewrite Eu, concat_app in H. cbn [concat] in H.
           apply own_before_app in H as [_ H]. apply own_before_app in H as [H _]. exact H. }
-        pose proof (obs_agree vg b (wrote (concat dnu) ++ []) (mem s) md Hob Ab) as L.
+        pose proof (obs_agree tr vg b (wrote (concat dnu) ++ []) (mem s) md Hob Ab Cb Rb) as L.
         rewrite RB, R2 in L. cbn [snd] in L. apply L.
-        * intros g Hg. rewrite app_nil_r in Hg. apply Mu, Hg.
-        * intros g Hg. rewrite app_nil_r in Hg.
+        * intros g Hg Tg. rewrite app_nil_r in Hg. apply Mu; assumption.
+        * intros g Hg Tg. rewrite app_nil_r in Hg.
           replace md with (fst (run_block m0 (concat dnu))) by (rewrite RD; reflexivity).
-          apply run_block_written; [|exact Hg]. pose proof (HA u) as H. rewrite Eu, concat_app in H. eapply agrees_app_l; eauto.
-      + intros g Hg. rewrite wrote_app in Hg. replace m' with (fst (run_block (mem s) b)) by (rewrite RB; reflexivity).
+          apply (run_block_written tr); [| |exact Tg|exact Hg].
+          -- pose proof (HA u) as H. rewrite Eu, concat_app in H. eapply agrees_app_l; eauto.
+          -- pose proof (HC u) as H. rewrite Eu, concat_app in H. eapply cpu_app_l; eauto.
+      + intros g Hg Tg. rewrite wrote_app in Hg. replace m' with (fst (run_block (mem s) b)) by (rewrite RB; reflexivity).
         apply in_app_or in Hg as [Hg|Hg].
-        * apply run_block_preserve; [exact Ab|apply Mu, Hg].
-        * apply run_block_written; [exact Ab|exact Hg].
+        * apply (run_block_preserve tr); [exact Ab|exact Cb|exact Tg|apply Mu; assumption].
+        * apply (run_block_written tr); [exact Ab|exact Cb|exact Tg|exact Hg].
     - destruct (I t) as [dn [Et [Ot Mt]]]. exists dn. repeat split; [exact Et|exact Ot|].
-      intros g Hg. replace m' with (fst (run_block (mem s) b)) by (rewrite RB; reflexivity).
-      apply run_block_preserve; [exact Ab|apply Mt, Hg].
+      intros g Hg Tg. replace m' with (fst (run_block (mem s) b)) by (rewrite RB; reflexivity).
+      apply (run_block_preserve tr); [exact Ab|exact Cb|exact Tg|apply Mt; assumption].
   Qed.
 
   Lemma inv_sched sched : forall s, Inv s -> Inv (run_sched sched s).
